@@ -122,14 +122,14 @@ void threshold_binary(
     {
         detail::threshold_impl<source_channel_t, result_channel_t>(src_view, dst_view,
             [threshold_value, max_value](source_channel_t px) -> result_channel_t {
-                return px > threshold_value ? max_value : 0;
+                return px > threshold_value ? max_value : result_channel_t(0);
             });
     }
     else
     {
         detail::threshold_impl<source_channel_t, result_channel_t>(src_view, dst_view,
             [threshold_value, max_value](source_channel_t px) -> result_channel_t {
-                return px > threshold_value ? 0 : max_value;
+                return px > threshold_value ? result_channel_t(0) : max_value;
             });
     }
 }
@@ -208,14 +208,14 @@ void threshold_truncate(
         {
             detail::threshold_impl<source_channel_t, result_channel_t>(src_view, dst_view,
                 [threshold_value](source_channel_t px) -> result_channel_t {
-                    return px > threshold_value ? px : 0;
+                    return px > threshold_value ? static_cast<result_channel_t>(px) : result_channel_t(0);
                 });
         }
         else
         {
             detail::threshold_impl<source_channel_t, result_channel_t>(src_view, dst_view,
                 [threshold_value](source_channel_t px) -> result_channel_t {
-                    return px > threshold_value ? 0 : px;
+                    return px > threshold_value ? result_channel_t(0) : static_cast<result_channel_t>(px);
                 });
         }
     }
